@@ -68,6 +68,12 @@ type Op struct {
 	// sent, Entries are appended to the log and the applied index advances by N (the call still answers for the applied index it
 	// read when it started; the terminating empty batch may carry a newer one)
 	MidAt int `json:"mid_at,omitempty"`
+	// ... and then, optionally, the leader's log is compacted up to the last entry this stream has already shipped (the engine drops the
+	// shard's log cache on that event), and ANOTHER follower's stream - one that is further ahead - reads the newest entries through
+	// the same cached reader (MidOther: how many entries below the new applied index it starts; MidOtherMax: its size limit)
+	MidCompact  bool   `json:"mid_compact,omitempty"`
+	MidOther    int    `json:"mid_other,omitempty"`
+	MidOtherMax uint64 `json:"mid_other_max,omitempty"`
 }
 
 type Case struct {
@@ -79,12 +85,25 @@ type mlog struct {
 	marker  uint64 // entries <= marker are compacted
 	entries []raftpb.Entry
 	applied uint64
+	ever    map[uint64]raftpb.Entry // every entry the log ever held (oracle use: an entry shipped before it was compacted)
 }
 
 func (l *mlog) first() uint64 { return l.marker + 1 }
 func (l *mlog) last() uint64  { return l.marker + uint64(len(l.entries)) }
 func (l *mlog) at(i uint64) raftpb.Entry {
-	return l.entries[i-l.marker-1]
+	if i > l.marker && i <= l.last() {
+		return l.entries[i-l.marker-1]
+	}
+	return l.ever[i]
+}
+
+func (l *mlog) add(s EntrySpec) {
+	e := mkEntry(l.last()+1, s)
+	l.entries = append(l.entries, e)
+	if l.ever == nil {
+		l.ever = map[uint64]raftpb.Entry{}
+	}
+	l.ever[e.Index] = e
 }
 
 func mkEntry(index uint64, s EntrySpec) raftpb.Entry {
@@ -298,6 +317,11 @@ func genCase(t *rapid.T) Case {
 				op.N = uint64(rapid.IntRange(1, 8).Draw(t, "mid.applied"))
 				n += uint64(cnt)
 				applied = min(marker+n, applied+op.N)
+				op.MidCompact = rapid.Bool().Draw(t, "mid.compact")
+				if rapid.Bool().Draw(t, "mid.other") {
+					op.MidOther = rapid.IntRange(1, cnt+1).Draw(t, "mid.otheroff")
+					op.MidOtherMax = rapid.SampledFrom(maxSizes).Draw(t, "mid.othermax")
+				}
 			}
 			c.Ops = append(c.Ops, op)
 		}
@@ -371,7 +395,7 @@ func run(c Case, o *vt.Obs) *vt.Failure {
 		switch op.Kind {
 		case "append":
 			for _, s := range op.Entries {
-				l.entries = append(l.entries, mkEntry(l.last()+1, s))
+				l.add(s)
 			}
 		case "applied":
 			l.applied = min(l.last(), l.applied+op.N)
@@ -402,7 +426,39 @@ func run(c Case, o *vt.Obs) *vt.Failure {
 			}
 		case "replicate":
 			ls := regattaserver.NewLogServer(fakeTables{l}, cached, zap.NewNop(), op.MaxSize)
-			if f := checkReplicate(l, ls, "Cached", i, op); f != nil {
+			var midFail *vt.Failure
+			midExtra = func(lastStreamed uint64) {
+				if op.MidCompact {
+					if nm := min(lastStreamed, l.applied); nm > l.marker {
+						l.entries = l.entries[nm-l.marker:]
+						l.marker = nm
+						deliverLogCompacted(sc, shardID, l.marker)
+						o.Label("log-compacted-while-a-call-streams")
+					}
+				}
+				if op.MidOther > 0 {
+					start := l.applied + 1
+					if uint64(op.MidOther) < start {
+						start -= uint64(op.MidOther)
+					}
+					if start < l.first() {
+						start = l.first()
+					}
+					if start <= l.applied {
+						ce, cerr := cached.QueryRaftLog(ctx, shardID, dragonboat.LogRange{FirstIndex: start, LastIndex: l.applied + 1}, op.MidOtherMax)
+						if sig, err := checkQuery(l, "Cached", start, ce, cerr); err != nil && midFail == nil {
+							midFail = vt.Failf(prop+"/cached-"+sig, i, "another follower's read while a call streams: %v", err)
+						}
+						o.Label("another-stream-reads-the-newest-entries-while-a-call-streams")
+					}
+				}
+			}
+			f := checkReplicate(l, ls, "Cached", i, op)
+			midExtra = nil
+			if midFail != nil {
+				return midFail
+			}
+			if f != nil {
 				return f
 			}
 			if op.MidAt > 0 {
@@ -436,6 +492,9 @@ func run(c Case, o *vt.Obs) *vt.Failure {
 	return nil
 }
 
+// midExtra: what else happens on the leader right after the mid-stream writes of a replicate call (set by run for the cached server)
+var midExtra func(lastStreamed uint64)
+
 func checkReplicate(l *mlog, ls *regattaserver.LogServer, who string, stepNo int, op Op) *vt.Failure {
 	st := &fakeStream{ctx: context.Background()}
 	atCall := l.applied // "the leader's applied index at the time of the call"
@@ -447,13 +506,22 @@ func checkReplicate(l *mlog, ls *regattaserver.LogServer, who string, stepNo int
 		}
 		moved = true
 		for _, s := range op.Entries {
-			l.entries = append(l.entries, mkEntry(l.last()+1, s))
+			l.add(s)
 		}
 		l.applied = min(l.last(), l.applied+op.N)
 	}
 	st.onSent = func(n int) {
-		if n == op.MidAt {
+		if n == op.MidAt && !moved {
 			move()
+			if midExtra != nil {
+				var lastStreamed uint64
+				for _, m := range st.msgs {
+					if cr := m.GetCommandsResponse(); cr != nil && len(cr.Commands) > 0 {
+						lastStreamed = cr.Commands[len(cr.Commands)-1].LeaderIndex
+					}
+				}
+				midExtra(lastStreamed)
+			}
 		}
 	}
 	err := ls.Replicate(&regattapb.ReplicateRequest{Table: []byte("t"), LeaderIndex: op.Start}, st)
